@@ -1,6 +1,6 @@
 (* C06 - restarts preserve earlier runs' records.  Statements only: soundness of the executable oracles that are
    applied to the implementation's directory snapshots. *)
-Require Import FL.Base.Bytes FL.Base.BytesFacts FL.Flw.Model FL.Oracles.ReaderOrder FL.Oracles.O_Stream.
+Require Import FL.Base.Bytes FL.Base.BytesFacts FL.Fs.Fs FL.Flw.Model FL.Flw.Run FL.Flw.NumInv FL.Flw.NumRun FL.Flw.NumTheorems FL.Flw.NumRestart FL.Oracles.O_Flw FL.Oracles.ReaderOrder FL.Oracles.O_Stream.
 
 (* oracle_all accepts exactly when the reader's stream is everything that was logged *)
 Theorem C06_oracle_sound : forall c logged l, oracle_all c logged l = true -> stream_of c l = logged.
@@ -17,6 +17,34 @@ Proof.
   destruct (P _ _ H) as [r E]. exists (rev r). apply (f_equal (@rev N)) in E. rewrite rev_involutive, rev_app_distr, rev_involutive in E. exact E.
 Qed.
 
-Check C06_oracle_sound. Check C06_tail_sound.
+
+(* Numbers naming, any number of runs on one directory (each run with its own criterion, buffer capacity and append
+   flag, same file specification): after the last run, r00000, r00001, ..., rCURRENT hold - in this order - exactly what
+   all runs wrote; nothing lost, nothing duplicated.  (partial: histories of less than 2^32 operations - the index that is
+   read back from a file name is a u32 -, no cleanup, no faults) *)
+Theorem C06_restarts_numbers sp t0 off rs :
+  (N.of_nat (length (runs_ops rs)) <= u32_max)%N ->
+  Forall (fun r => c_spec (fst r) = sp /\ (exists crit, numcfg (fst r) crit) /\ Forall basic_op (snd r)) rs ->
+  exists files,
+    (forall c, c_spec c = sp -> reads c (wfs (s_w (fst (run (sys0 t0 off) (runs_ops rs))))) files)
+    /\ concat files = runs_written rs.
+Proof. exact (numbers_restarts_partial sp t0 off rs). Qed.
+
+(* ... and no closed file is touched by a later run: it keeps its number and its content; the file that was current
+   is continued or closed under the next number, its old content first *)
+Theorem C06_restarts_keep sp t0 off rs1 rs2 :
+  (N.of_nat (length (runs_ops (rs1 ++ rs2))) <= u32_max)%N ->
+  Forall (fun r => c_spec (fst r) = sp /\ (exists crit, numcfg (fst r) crit) /\ Forall basic_op (snd r)) (rs1 ++ rs2) ->
+  exists files1 files2,
+    (forall c, c_spec c = sp -> reads c (wfs (s_w (fst (run (sys0 t0 off) (runs_ops rs1))))) files1)
+    /\ concat files1 = runs_written rs1
+    /\ (forall c, c_spec c = sp -> reads c (wfs (s_w (fst (run (sys0 t0 off) (runs_ops (rs1 ++ rs2)))))) files2)
+    /\ concat files2 = runs_written (rs1 ++ rs2)
+    /\ (files1 = [] \/ exists closed cur t more, files1 = closed ++ [cur] /\ files2 = closed ++ [cur ++ t] ++ more).
+Proof. exact (numbers_restarts_keep sp t0 off rs1 rs2). Qed.
+
+Check C06_oracle_sound. Check C06_tail_sound. Check C06_restarts_numbers. Check C06_restarts_keep.
+Print Assumptions C06_restarts_numbers.
+Print Assumptions C06_restarts_keep.
 Print Assumptions C06_oracle_sound.
 Print Assumptions C06_tail_sound.
